@@ -9,13 +9,14 @@ RULE = ("K: (a) OnOffSwitch.calculate_on_list / calculate_time_step_to_on_arr_id
         "count T<=Tmax on a structured grid of switches: all 2^7 presence patterns of the six time parameters and the "
         "period (two value assignments each, intervals 1..3), every VALID pattern with values drawn from a set that "
         "straddles step boundaries in binary64 (k*dt, products such as 1.5*0.2, half steps), always-off (also with "
-        "an invalid specification), fixed step lists (duplicates, negative = Python wrap, out of range), intervals "
+        "an invalid specification), fixed step lists (unsorted, duplicates, negative = Python wrap, out of range), intervals "
         "0 / negative / > T; compared EXACTLY (on bits, index map, record count, default flag, error kind) with the "
         "model, which performs the same binary64 multiplications and comparisons. (b) real runs on a 4^3 periodic "
         "scene with random switches on an electric and a magnetic PointDipoleSource and on FieldDetectors: "
         "update_E/update_H/update_E_reverse/update_H_reverse at every step against the same scene placed without "
         "sources (inactive step => bit-identical fields), run_fdtd detector state = the always-on detector's records "
-        "at the active steps in order (exact), zero fields before the first active source step, "
+        "at the distinct active steps in chronological order (exact; every quick run has detectors with the unsorted list "
+        "[5,1,3] and the repeating list [2,2,4,9,4]), zero fields before the first active source step, "
         "Source.adjust_time_step_by_on_off vs the model. non-trivial = a schedule with at least one active and one "
         "inactive step, or an error kind. The documented window rule is evaluated independently in Python "
         "(oracle_on_list) on every case.")
@@ -252,7 +253,7 @@ def grid_cases(ctx):
     # (6) fixed lists (take precedence over everything, Python list indexing)
     for T in (0, 1, 5, Tmax):
         lists = [[], [0], [T - 1], [T], [-1], [-T], [-T - 1], [0, 0, 2], [3, 1, 2], [1, -1, 1], list(range(T)),
-                 [2, T + 5], [-2, 1]]
+                 [2, T + 5], [-2, 1], [5, 1, 3], [2, 2, 4], [4, 2, 2, 0], list(range(T))[::-1], [3, 3, 3], [1, 4, 1, 4, 0]]
         for fx in lists:
             out.append(("fixed", mk_case(T, dt, fixed=fx)))
         out.append(("fixed", mk_case(T, dt, fixed=[0], off=True)))
@@ -273,7 +274,10 @@ def random_switch_case(rng, T, dt, per=None, valid_only=False):
     kind = rng.randint(0, 13)
     iv = rng.choice([1, 1, 2, 3])
     if kind == 0:
-        return mk_case(T, dt, fixed=sorted({rng.randint(0, T - 1) for _ in range(rng.randint(0, T))}) if T else [])
+        if not T:
+            return mk_case(T, dt, fixed=[])
+        fx = [rng.randint(0, T - 1) for _ in range(rng.randint(0, T))]          # written order, repeats allowed
+        return mk_case(T, dt, fixed=sorted(set(fx)) if rng.chance(0.3) else fx)
     if kind == 1:
         return mk_case(T, dt, off=True)
     if kind == 2:
@@ -521,7 +525,9 @@ def run(ctx):
         if i == 0:   # a fixed seed scene: late start for both sources, strided detector
             sc = {"T": 10, "src_e": mk_case(10, dt, st=3 * dt, et=6.5 * dt), "src_h": mk_case(10, dt, fixed=[4, 7]),
                   "dets": [[mk_case(10, dt, interval=3), False], [mk_case(10, dt, st=2 * dt, oft=4 * dt, interval=2), True],
-                           [mk_case(10, dt, off=True), False], [mk_case(10, dt, fixed=[]), True]],   # never active
+                           [mk_case(10, dt, off=True), False], [mk_case(10, dt, fixed=[]), True],    # never active
+                           [mk_case(10, dt, fixed=[5, 1, 3]), False],       # written out of time order
+                           [mk_case(10, dt, fixed=[2, 2, 4, 9, 4]), False]],  # repeated steps: one record each
                   "seed": 5}
         d = run_scene_case(ctx, sc)
         ctx.case(sample={"op": "scene", "scene": sc} if i == 0 else None, nontrivial=("scene", i), group="scene", T=T)
